@@ -209,7 +209,9 @@ def gauss_cases(draw, tier="quick"):
          "mean_kind": draw(st.sampled_from(["zero", "scalar", "vector"])), "mean": draw(gen.vec(n)),
          "x": draw(gen.vec(n)), "x2": draw(gen.vec(n)),
          "sparse_switch": draw(st.sampled_from(["below", "above"])),
-         "true_size": False}
+         "true_size": False,
+         # overall scale of the standard deviations: 1, 1e-5 (covariance entries ~1e-10, off-diagonals below 1e-8) or 1e3
+         "scale_pow": draw(st.sampled_from([0, 0, 0, -5, 3]))}
     if tier == "thorough" and draw(st.integers(0, 9)) == 0:
         # true sizes on both sides of the real threshold (MIN_DIM_SPARSE = 75)
         n = draw(st.sampled_from([74, 75, 76, 90]))
@@ -220,6 +222,10 @@ def gauss_cases(draw, tier="quick"):
 
 
 def gauss_sigma(c):
+    return _gauss_sigma_unit(c) * 10.0 ** (2 * c.get("scale_pow", 0))
+
+
+def _gauss_sigma_unit(c):
     n = c["n"]
     var = A(c["var"])
     st_ = c["structure"]
@@ -272,15 +278,52 @@ def gauss_arg(c):
 
 
 def gauss_tags(c):
-    t = {"param": c["param"], "structure": c["structure"], "switch": c["sparse_switch"] if not c.get("true_size") else "true_size"}
+    t = {"param": c["param"], "structure": c["structure"], "switch": c["sparse_switch"] if not c.get("true_size") else "true_size",
+         "scale_pow": c.get("scale_pow", 0)}
     if c["param"] in ("sqrtcov", "sqrtprec") and c["structure"] in ("dense", "sparse"):
         t["sqrt_kind"] = c["sqrt_kind"]
     return t
 
 
+def switch_independence(c, rec):
+    """formula-free relation that holds whatever convention a parameterisation follows: the dense/sparse storage switch
+    (cuqi.config.MIN_DIM_SPARSE) must not change the distribution. Runs for every class, also those under a recorded finding."""
+    import cuqi
+    n = c["n"]
+    mean = {"zero": 0.0, "scalar": float(c["mean"][0]), "vector": A(c["mean"])}[c["mean_kind"]]
+    mu = np.broadcast_to(np.asarray(mean, dtype=float), (n,))
+    sc = 10.0 ** c.get("scale_pow", 0)
+    x, x2 = mu + sc * A(c["x"]), mu + sc * A(c["x2"])
+    old = cuqi.config.MIN_DIM_SPARSE
+    vals = {}
+    try:
+        for sw, thr in (("below", 10 ** 6), ("above", 1)):
+            cuqi.config.MIN_DIM_SPARSE = thr
+            kw = {c["param"]: gauss_arg(c)}
+            if c["mean_kind"] != "vector":
+                kw["geometry"] = n
+            refused, d = refuses(lambda: cuqi.distribution.Gaussian(mean, **kw))
+            if refused:
+                return
+            refused, v = refuses(lambda: (_f(d.logpdf(x.copy())), _f(d.logpdf(x2.copy()))))
+            if refused:
+                return
+            vals[sw] = v
+    finally:
+        cuqi.config.MIN_DIM_SPARSE = old
+    (a1, a2), (b1, b2) = vals["below"], vals["above"]
+    if not all(np.isfinite(t) for t in (a1, a2, b1, b2)):
+        return
+    require(close(a1, b1, 1e-7) and close(a1 - a2, b1 - b2, 1e-7),
+            f"Gaussian({c['param']} given as {c['structure']}): the log-density changes with the dense/sparse storage threshold "
+            "cuqi.config.MIN_DIM_SPARSE (the same input describes two different distributions)", below=(a1, a2), above=(b1, b2))
+
+
 def run_gauss(c, rec):
     import cuqi
     tags = gauss_tags(c)
+    if not c.get("true_size"):
+        switch_independence(c, rec)
     if rec.classify(tags, True):
         return
     n = c["n"]
@@ -303,8 +346,9 @@ def run_gauss(c, rec):
             if c["structure"] in ("scalar", "vector", "diagmatrix"):
                 raise Violation(f"constructing Gaussian({c['param']}=..., {c['structure']}) failed: {d}")
             return
-        x, x2 = A(c["x"]), A(c["x2"])
-        ref = sps.multivariate_normal(mu, S)
+        sc = 10.0 ** c.get("scale_pow", 0)
+        x, x2 = mu + sc * A(c["x"]), mu + sc * A(c["x2"])
+        ref = sps.multivariate_normal(mu, S, allow_singular=False)
         want, want2 = float(ref.logpdf(x)), float(ref.logpdf(x2))
         if abs(want) > 600:
             rec.inconc("reference_out_of_range")
@@ -370,6 +414,10 @@ def reassign_cases(draw, tier="quick"):
         g2 = dict(g)
         g2["var"] = draw(st.lists(gen.logpos(-1.0, 1.0), min_size=n, max_size=n))
         if draw(st.booleans()):
+            # the new value may have another structure than the old one (a scalar replaced by a full matrix, ...)
+            g2["structure"] = draw(st.sampled_from(["scalar", "vector", "diagmatrix", "dense", "dense", "sparse"]))
+            g2["sqrt_kind"] = draw(st.sampled_from(SQRT_KINDS))
+        if draw(st.booleans()):
             m2 = list(g["mean"])
             m2[0] = draw(gen.fl(-3, 3))
             g2["mean"] = m2
@@ -408,9 +456,9 @@ def run_reassign(c, rec):
     if kind == "gmrf":
         tags.update(bc=s1["bc"], order=s1["order"])
     if kind == "gaussian":
-        tags.update(param=s1["param"], structure=s1["structure"])
-        if s1["param"] in ("sqrtcov", "sqrtprec") and s1["structure"] in ("dense", "sparse"):
-            tags["sqrt_kind"] = s1["sqrt_kind"]
+        tags.update(param=s1["param"], structure=s2["structure"], structure_before=s1["structure"])
+        if s1["param"] in ("sqrtcov", "sqrtprec") and s2["structure"] in ("dense", "sparse"):
+            tags["sqrt_kind"] = s2["sqrt_kind"]
     if rec.classify(tags, True):
         return
     old = cuqi.config.MIN_DIM_SPARSE
@@ -450,7 +498,103 @@ def run_reassign(c, rec):
         cuqi.config.MIN_DIM_SPARSE = old
 
 
+# ----------------------------------------------------------------------------- hierarchical parameters: conditioned siblings
+
+SIB_KINDS = ["gaussian2", "gaussian_shared", "normal", "gamma", "laplace", "gmrf", "lmrf", "cmrf", "lognormal"]
+
+
+@st.composite
+def sibling_cases(draw, tier="quick"):
+    n = draw(st.integers(2, 5))
+    return {"kind": draw(st.sampled_from(SIB_KINDS)), "n": n, "mean": draw(gen.vec(n, -1, 1)), "u": draw(gen.vec(n, -1, 1)),
+            "var": draw(st.lists(gen.logpos(-0.7, 0.5), min_size=n, max_size=n)), "x": draw(gen.vec(n, -1.5, 1.5)),
+            "v1": [draw(gen.logpos(-0.6, 0.8)), draw(gen.logpos(-0.6, 0.8))], "v2": [draw(gen.logpos(-0.6, 0.8)), draw(gen.logpos(-0.6, 0.8))],
+            "bc": draw(st.sampled_from(["zero", "periodic", "neumann"])), "order": draw(st.sampled_from([1, 2])),
+            "kw_order": draw(st.sampled_from(["signature", "reversed"])), "steps": draw(st.sampled_from(["one", "two"]))}
+
+
+def _sibling_objects(c):
+    """returns (conditional distribution, argument names, direct(values) -> the same distribution built from plain values)"""
+    import cuqi
+    D = cuqi.distribution
+    n, kind = c["n"], c["kind"]
+    mean, u, var = A(c["mean"]), A(c["u"]), A(c["var"])
+    if kind == "gaussian2":
+        cond = D.Gaussian(mean.copy(), cov=lambda s, t: s * t * var, geometry=n)
+        return cond, ["s", "t"], lambda v: D.Gaussian(mean.copy(), cov=v[0] * v[1] * var)
+    if kind == "gaussian_shared":
+        # two callables sharing their arguments, listed in different orders
+        cond = D.Gaussian(mean=lambda s, t: s * mean + t * u, cov=lambda t, s: (s + 2 * t) * var, geometry=n)
+        return cond, ["s", "t"], lambda v: D.Gaussian(v[0] * mean + v[1] * u, cov=(v[0] + 2 * v[1]) * var)
+    if kind == "normal":
+        cond = D.Normal(mean=lambda s: s * mean, std=lambda t: t * np.sqrt(var), geometry=n)
+        return cond, ["s", "t"], lambda v: D.Normal(v[0] * mean, v[1] * np.sqrt(var))
+    if kind == "gamma":
+        cond = D.Gamma(shape=lambda s: s * var, rate=lambda t: t * (1 + var), geometry=n)
+        return cond, ["s", "t"], lambda v: D.Gamma(v[0] * var, v[1] * (1 + var))
+    if kind == "laplace":
+        cond = D.Laplace(location=lambda s: s * mean, scale=lambda t: t, geometry=n)
+        return cond, ["s", "t"], lambda v: D.Laplace(v[0] * mean, v[1])
+    if kind == "gmrf":
+        cond = D.GMRF(mean.copy(), prec=lambda s: s, bc_type=c["bc"], order=c["order"], geometry=n)
+        return cond, ["s"], lambda v: D.GMRF(mean.copy(), v[0], bc_type=c["bc"], order=c["order"], geometry=n)
+    if kind == "lmrf":
+        cond = D.LMRF(mean.copy(), scale=lambda s: s, bc_type=c["bc"], geometry=n)
+        return cond, ["s"], lambda v: D.LMRF(mean.copy(), v[0], bc_type=c["bc"], geometry=n)
+    if kind == "cmrf":
+        cond = D.CMRF(mean.copy(), scale=lambda s: s, bc_type=c["bc"], geometry=n)
+        return cond, ["s"], lambda v: D.CMRF(mean.copy(), v[0], bc_type=c["bc"], geometry=n)
+    Dm = np.diag(var)
+    cond = D.Lognormal(mean.copy(), cov=lambda s: s * Dm, geometry=n)
+    return cond, ["s"], lambda v: D.Lognormal(mean.copy(), v[0] * Dm)
+
+
+def run_siblings(c, rec):
+    """a distribution with hyper-parameters entering through callables, conditioned on two different sets of values: each
+    conditioned copy must be the distribution with those values (keywords in any order, in one step or two), and must stay
+    that when its sibling is created and evaluated"""
+    kind = c["kind"]
+    tags = {"kind": kind, "kw_order": c["kw_order"], "steps": c["steps"]}
+    if kind in ("gmrf", "lmrf", "cmrf"):
+        tags["bc"] = c["bc"]
+    if rec.classify(tags, True):
+        return
+    cond, names, direct = must(lambda: _sibling_objects(c), "building the conditional distribution")
+    x = np.exp(A(c["x"])) if kind in ("gamma", "lognormal") else A(c["x"])
+
+    def condition(vals):
+        kw = dict(zip(names, vals[:len(names)]))
+        keys = list(kw) if c["kw_order"] == "signature" else list(reversed(list(kw)))
+        if c["steps"] == "two" and len(keys) == 2:
+            return cond(**{keys[0]: kw[keys[0]]})(**{keys[1]: kw[keys[1]]})
+        return cond(**{k: kw[k] for k in keys})
+
+    def val(d):
+        with np.errstate(all="ignore"):
+            return _f(d.logpdf(x.copy()))
+    v1, v2 = c["v1"], c["v2"]
+    a = must(lambda: condition(v1), "conditioning on the first set of values")
+    wa = val(must(lambda: direct(v1), "building the distribution directly"))
+    la1 = val(a)
+    require(close(la1, wa, 1e-10), f"{kind}: the distribution conditioned on its hyper-parameters is not the distribution built with those values",
+            conditioned=la1, direct=wa, values=dict(zip(names, v1)))
+    b = must(lambda: condition(v2), "conditioning on the second set of values")
+    wb = val(direct(v2))
+    lb = val(b)
+    require(close(lb, wb, 1e-10), f"{kind}: a second conditioned copy (other values) is not the distribution built with its values",
+            conditioned=lb, direct=wb, values=dict(zip(names, v2)), first_values=dict(zip(names, v1)))
+    la2 = val(a)
+    require(close(la2, la1, 1e-12), f"{kind}: the first conditioned copy changed after a sibling was created and evaluated", before=la1, after=la2)
+    # everything in one evaluation of the conditional distribution
+    refused, lall = refuses(lambda: _f(cond.logd(**dict(zip(names, v1[:len(names)])), **{cond.name if cond._name else "x": x.copy()})))
+    if not refused and np.isfinite(lall) and np.isfinite(wa):
+        wd = _f(direct(v1).logd(x.copy()))
+        require(close(lall, wd, 1e-10), f"{kind}: evaluating the conditional distribution with all values at once differs from the direct distribution",
+                got=lall, want=wd)
+
+
 SUBCHECKS = [
+    SubCheck("C04/conditional_siblings", run_siblings, strategy=sibling_cases, n={"quick": 800, "thorough": 15000}, shards={"quick": 4, "thorough": 16}),
     SubCheck("C04/families", run_family, strategy=lambda tier: dists.family_spec(max_dim=5 if tier == "quick" else 9),
              n={"quick": 3000, "thorough": 60000}, shards={"quick": 4, "thorough": 16}),
     SubCheck("C04/cdf", run_cdf, strategy=lambda tier: dists.family_spec(families=["Normal", "Cauchy", "Gamma", "InverseGamma", "Beta"],
